@@ -233,12 +233,71 @@ def run(ctx):
     variants_stream(ctx, "MVCAPA", lambda: _MVCAPA(min_segment_length=2, max_segment_length=30), ctx.n(3, 16),
                     flat_make=lambda: _MVCAPA(min_segment_length=2, collective_penalty_scale=1e6, point_penalty_scale=1e6))
     float_optimality_stream(ctx)
+    capa_default_scale_stream(ctx)
     from skchange.costs import L2Cost as _L2c
     variants_stream(ctx, "MVCAPA(L2Cost saving)", lambda: _MVCAPA(collective_saving=_L2c(param=0.0), point_saving=_L2c(param=0.0), min_segment_length=2, max_segment_length=30),
                     ctx.n(2, 10), p_choices=(2, 3), nested=("collective_saving__param", 1.5))
     # ---- the generic dynamic programme (Model/GenericCapa.v) on primitive floats against the real CAPA / MVCAPA, bit for bit ----
     from harness import floatstreams
     floatstreams.capa_float_stream(ctx, ctx.n(18, 120))
+
+
+def capa_default_scale_stream(ctx):
+    """CAPA() / MVCAPA() with DEFAULT hyper-parameters (min_segment_length 2, max_segment_length 1000, default penalties) on series of a few hundred rows: the final score
+    and the re-evaluated total of the reported anomalies against the optimum of the dynamic programme on the scorer's own float savings (float arithmetic, relative
+    tolerance), with the fitted penalties read back from the detector."""
+    from skchange.anomaly_detectors import CAPA as _CAPA, MVCAPA as _MVCAPA
+    from skchange.anomaly_detectors.mvcapa import capa_penalty_factory
+    from skchange.anomaly_scores import L2Saving as _L2S
+    rng = ctx.rng
+    for it in range(ctx.n(2, 10)):
+        n, p = rng.randint(150, 320), rng.choice([1, 3])
+        multi = it % 2 == 1
+        X = np.asarray([[rng.gauss(0, 1) for _ in range(p)] for _ in range(n)])
+        a = rng.randint(20, n - 80)
+        X[a:a + rng.randint(10, 50), : rng.randint(1, p)] += rng.choice([3.0, -4.0])
+        X[rng.randrange(n), rng.randrange(p)] += rng.choice([9.0, -11.0])
+        d = (_MVCAPA() if multi else _CAPA()).fit(X)
+        m, M = d.min_segment_length, d.max_segment_length
+        y = d.predict(X)
+        scores = d.transform_scores(X).to_numpy().reshape(-1)
+        if multi:
+            ac, bc = capa_penalty_factory(d.collective_penalty)(n, p, 1, d.collective_penalty_scale)
+            ap, bp = capa_penalty_factory(d.point_penalty)(n, p, 1, d.point_penalty_scale)
+            bc, bp = [float(v) for v in bc], [float(v) for v in bp]
+        else:
+            ac, ap, bc, bp = float(d.collective_penalty_), float(d.point_penalty_), [0.0] * p, [0.0] * p
+
+        def pbest(sav, alpha, betas):
+            order = sorted(sav, reverse=True)
+            best, run = None, -alpha
+            for k_, v in enumerate(order):
+                run += v - betas[k_]
+                best = run if best is None or run > best else best
+            return best
+        sc = _L2S().fit(X)
+        cuts = [(s, e) for s in range(n) for e in range(s + m, min(n, s + M) + 1)]
+        PC = {c_: pbest([float(v) for v in row], float(ac), bc) for c_, row in zip(cuts, sc.evaluate(np.asarray(cuts)))}
+        PPv = [pbest([float(v) for v in row], float(ap), bp) for row in sc.evaluate(np.asarray([(t, t + 1) for t in range(n)]))]
+        G = [0.0] * (n + 1)
+        for t in range(1, n + 1):
+            best = max(G[t - 1], G[t - 1] + PPv[t - 1])
+            for s in range(max(0, t - M), t - m + 1):
+                v = G[s] + PC[(s, t)]
+                if v > best:
+                    best = v
+            G[t] = best
+        iv = [(int(l), int(r)) for l, r in zip(y["ilocs"].array.left, y["ilocs"].array.right)]
+        ok_shape = all((r - l == 1) or (m <= r - l <= M) for l, r in iv) and all(b_[0] >= a_[1] for a_, b_ in zip(iv, iv[1:]))
+        total = sum((PPv[l] if r - l == 1 else PC[(l, r)]) for l, r in iv) if ok_shape else float("nan")
+        tol = 1e-8 * (abs(G[n]) + sum(abs(v) for v in PPv) + 1.0)
+        inp = {"detector": "MVCAPA" if multi else "CAPA", "defaults": True, "n": n, "p": p, "anomalies": [list(t) for t in iv], "final_score": float(scores[-1]), "optimum": G[n],
+               "X": X.tolist() if n * p <= 1000 else None}
+        ctx.case({"capa_default_scale": it, "n": n, "p": p, "x0": float(X[0, 0])}, nontrivial=len(iv) > 0)
+        ctx.count("default_scale", inp["detector"])
+        if not ok_shape or abs(total - G[n]) > tol or abs(float(scores[-1]) - G[n]) > tol:
+            ctx.violation(f"{inp['detector']}() with default hyper-parameters on a {n} x {p} series: final score {float(scores[-1])!r}, re-evaluated total of the reported anomalies "
+                          f"{total!r}, optimum of the dynamic programme on the scorer's savings {G[n]!r} (anomalies {iv[:6]})", inp, {"what": "default-scale-spec", "detector": inp["detector"]})
 
 
 def float_optimality_stream(ctx):
